@@ -176,6 +176,7 @@ def run(rep, props, replay=None):
         if i % 4 == 0:
             other_kinds(rep, rng, x, X, quick)
     unit_monitor(rep, np.random.default_rng([C.seed(), 10, 3]))
+    level_monitor(rep, np.random.default_rng([C.seed(), 10, 4]))
     res = runq.run()
     for t, what, kind, X in todo:
         rep.case((what, kind, X.tobytes()), nontrivial=bool(np.ptp(X) > 0), kind=f"{what}/{kind}",
@@ -233,6 +234,36 @@ def unit_monitor(rep, rng):
             if bad:
                 rep.violation(f"{kind} data in other units (the same curves times 2^{e}): " + "; ".join(bad),
                               {"kind": kind, "x": C.hexf(x), "X": C.hexf(X), "coefficients": C.hexf(coef), "factor_exponent": e})
+
+
+def level_monitor(rep, rng):
+    """Curves recorded around a large level (|mean| / std ~ 1e4 .. 1e6): the rescaling weight is still the integrated pointwise
+    variance (relative accuracy: eps * level / variation, not eps * level^2 / variation^2), re-estimating gives one, the
+    standardised curves have unit variance."""
+    x = fd.grid(rng, 9, "nonuniform")
+    V = fd.dyadic_matrix(rng, 6, 9) / 64.0
+    for level in (1000.0, 2.0 ** 20, -5.0e5):
+        X = V + level
+        d = fd.dense(x, X)
+        rep.case(("level", level, V.tobytes()), kind="scale/large-level")
+        bad = []
+        try:
+            new, w = d.rescale()
+            w = float(w)
+            ref = float(np.trapz(np.var(V, axis=0), x))
+            if abs(w - ref) > 1e-7 * ref:
+                bad.append(f"rescaling weight {w!r} is not the integrated pointwise variance {ref!r}")
+            w2 = float(fd.dense(x, np.asarray(new.values)).rescale()[1])
+            if abs(w2 - 1.0) > 1e-6:
+                bad.append(f"re-estimated weight of the rescaled curves is {w2!r}")
+            sd_ = np.asarray(d.standardize().values, float)
+            if not np.all(np.isfinite(sd_)) or np.max(np.abs(sd_.var(axis=0) - 1.0)) > 1e-6:
+                bad.append("standardised curves do not have unit pointwise variance")
+        except Exception as e:  # noqa: BLE001
+            bad.append(f"raised {type(e).__name__}: {str(e)[:80]}")
+        if bad:
+            rep.violation(f"dense data around the level {level:g} (variation ~ 0.05): " + "; ".join(bad),
+                          {"x": C.hexf(x), "variation": C.hexf(V), "level": level})
 
 
 def other_kinds(rep, rng, x, X, quick):
